@@ -40,6 +40,9 @@ def scenario(big: bool = False) -> Any:
                 m["at"] = 0.0
         d["horizon"] = cm.horizon_for(d)
         d["drain"] = 0.0
+        ph = d.pop("pre_hook")
+        if ph is not None:
+            d["mws"] = [{"pre_execute": {"async": ph, "fail_on": []}}]
         return d
 
     return st.fixed_dictionaries({
@@ -52,7 +55,10 @@ def scenario(big: bool = False) -> Any:
         "ends": st.booleans(),
         "burst": st.sampled_from([False, False, True]),
         "ack_type": st.sampled_from(["when_received", "when_executed", "when_saved"]),
-        "register_at": cm.times(),      # instant at which the task `dyntask` gets registered on the running worker
+        "register_at": cm.times(),
+        # an observing pre_execute middleware written as a sync function, an async one, or a plain function returning a coroutine /
+        # a Future / another awaitable (all allowed by the hook's signature): messages still run exactly once
+        "pre_hook": st.sampled_from([None, None, None, False, True, "deferred", "future", "awaitable"]),      # instant at which the task `dyntask` gets registered on the running worker
     }).map(fin)
 
 
